@@ -1,3 +1,4 @@
+mod clvmgen;
 mod common;
 mod engines;
 mod repo;
